@@ -677,3 +677,119 @@ pub fn sql_session_manual(
             })
     })
 }
+
+/// Corruption sessions: run `sqls[..corrupt_before]` on a fresh on-disk database (no background
+/// tasks, CRC32 checksums as for a database opened from the command line), close it, damage one
+/// `.col` / `.idx` file, reopen and run the remaining statements. Files are numbered in sorted
+/// path order; `kind` 0 flips bit `bit` of byte `at`, 1 truncates the file to `at` bytes, 2
+/// overwrites byte `at` with `bit as u8`. Returns the statement results (an open failure is
+/// reported as that error for every remaining statement) and the (path, length) list of the files.
+#[allow(clippy::type_complexity)]
+pub fn sql_session_corrupt(
+    target_block_size: usize,
+    sqls: &[String],
+    corrupt_before: usize,
+    file_index: usize,
+    kind: u8,
+    at: usize,
+    bit: u8,
+) -> Result<(Vec<Result<Vec<Vec<String>>, String>>, Vec<(String, u64)>), String> {
+    use crate::Database;
+    use crate::array::datachunk_to_sqllogictest_string;
+    use crate::storage::SecondaryStorageOptions;
+    fn walk(dir: &std::path::Path, out: &mut Vec<std::path::PathBuf>) {
+        if let Ok(rd) = std::fs::read_dir(dir) {
+            for e in rd.flatten() {
+                let p = e.path();
+                if p.is_dir() {
+                    walk(&p, out);
+                } else if matches!(p.extension().and_then(|x| x.to_str()), Some("col" | "idx")) {
+                    out.push(p);
+                }
+            }
+        }
+    }
+    guarded(|| {
+        let rt = tokio::runtime::Builder::new_multi_thread()
+            .worker_threads(2)
+            .enable_all()
+            .build()
+            .unwrap();
+        let dir = ScratchDir::new()?;
+        let root = dir.path().join("db");
+        let options = || {
+            let mut options = SecondaryStorageOptions::default_for_cli();
+            options.path = root.clone();
+            options.target_block_size = target_block_size;
+            options.target_rowset_size = 1;
+            options
+        };
+        let run = |db: &Database, sql: &str| {
+            rt.block_on(async {
+                match db.run(sql).await {
+                    Ok(chunks) => Ok(chunks
+                        .iter()
+                        .flat_map(datachunk_to_sqllogictest_string)
+                        .collect()),
+                    Err(e) => Err(e.to_string().lines().next().unwrap_or("").to_string()),
+                }
+            })
+        };
+        let mut out = vec![];
+        let db = rt.block_on(Database::verif_new_on_disk_manual(options()));
+        for sql in &sqls[..corrupt_before] {
+            out.push(run(&db, sql));
+        }
+        drop(db);
+        let mut files = vec![];
+        walk(&root, &mut files);
+        files.sort();
+        let listing: Vec<(String, u64)> = files
+            .iter()
+            .map(|p| {
+                let rel = p.strip_prefix(&root).unwrap_or(p).display().to_string();
+                (rel, std::fs::metadata(p).map(|m| m.len()).unwrap_or(0))
+            })
+            .collect();
+        if !files.is_empty() {
+            let p = &files[file_index % files.len()];
+            let mut data = std::fs::read(p).map_err(|e| e.to_string())?;
+            if !data.is_empty() {
+                let at = at % data.len();
+                match kind {
+                    0 => data[at] ^= 1 << (bit % 8),
+                    1 => data.truncate(at),
+                    _ => data[at] = bit,
+                }
+                std::fs::write(p, &data).map_err(|e| e.to_string())?;
+            }
+        }
+        // a failure to open (bootstrap reads every index file) is the answer to every statement
+        let opened = catch_unwind(AssertUnwindSafe(|| {
+            rt.block_on(Database::verif_new_on_disk_manual(options()))
+        }));
+        match opened {
+            Ok(db) => {
+                for sql in &sqls[corrupt_before..] {
+                    // a panic inside one statement must not hide the results of the others
+                    let r = catch_unwind(AssertUnwindSafe(|| run(&db, sql)));
+                    out.push(r.unwrap_or_else(|_| Err("PANIC while running the statement".into())));
+                }
+                drop(db);
+            }
+            Err(e) => {
+                let msg = format!(
+                    "OPEN FAILED: {}",
+                    e.downcast_ref::<String>()
+                        .cloned()
+                        .or_else(|| e.downcast_ref::<&str>().map(|s| s.to_string()))
+                        .unwrap_or_default()
+                );
+                for _ in &sqls[corrupt_before..] {
+                    out.push(Err(msg.clone()));
+                }
+            }
+        }
+        Ok((out, listing))
+    })
+}
